@@ -491,3 +491,28 @@ Lemma std_file_drive_divergence :
   std_file_diverge_case (B "file://h.x/tmp/d") (B "C|/y") (B "file://h.x/C:/y") (B "file:///C:/y") = true
   /\ std_file_diverge_case (B "file://h.x/tmp/d") (B "/C:/x") (B "file://h.x/C:/x") (B "file:///C:/x") = true.
 Proof. vm_compute. split; reflexivity. Qed.
+
+(* the drive-letter class with the crate: base with the empty host on both sides, references in in_class_file_rel_drive;
+   both succeed, the Standard's href is the model's serialization and equals the expected text, host text kept *)
+Definition std_fs_drive_agree_case (base : list N) (refs : list (list N * list N)) : bool :=
+  let idna := ex_idna_clean in
+  match parse_url true (host_parse idna) host_parse_opaque host_display None None base,
+        spec_basic_url_parse (spec_host_parser idna) base None with
+  | POk b, BDone sb =>
+      spec_base_ok sb
+      && forallb (fun re =>
+           in_class_file_rel_drive sb (fst re) && std_contain_pre sb (spec_clean (fst re))
+           && match spec_basic_url_parse (spec_host_parser idna) (fst re) (Some sb),
+                    parse_url true (host_parse idna) host_parse_opaque host_display None (Some b) (fst re) with
+              | BDone su, POk u' =>
+                  list_eqb (get_host spec_host_serializer su) (get_host spec_host_serializer sb)
+                  && list_eqb (get_href spec_host_serializer su) (ser u')
+                  && list_eqb (ser u') (snd re)
+              | _, _ => false
+              end) refs
+  | _, _ => false
+  end.
+
+Lemma std_contain_file_drive_agree_inhabited :
+  std_fs_drive_agree_case (B "file:///tmp/d?q") [(B "C|/y", B "file:///C:/y"); (B "d|", B "file:///d:"); (B " C|\z?k#g", B "file:///C:/z?k#g")] = true.
+Proof. vm_compute. reflexivity. Qed.
